@@ -11,9 +11,9 @@ CHECKS = {
          "vf/ri.py is the reading of docs/user-ref/parser.md; profile excludes constructs whose meaning is open (actions right after open-ended statements, optional with re-entrant first pattern)"),
  "C02": ("exploration", "sanitized emitted C under an exact-size-chunk / state-relocating driver; all 2^(n-1) chunkings of short inputs and cut-point/random chunkings of long ones compared with the one-byte schedule of the same binary (self-consistency monitor over recorded event logs)", "3 C02", "differential runtime monitoring of emitted C (ASan+UBSan), one-byte schedule as oracle",
          "trusts clang/ASan/UBSan and the driver; offsets observable only in indirect-pointer builds (direct builds: chunk containment)"),
- "C03": ("exploration", "emitted C built with ASan+UBSan+LSan in every string-storage mode, driven with poisoned state, exact-size chunks, relocated state, calls after terminal results, double free() and start/free cycles; string counter/terminator invariants checked after start() and every call; icontract post-condition on the real _generate_set_string", "3 C03", "compiler sanitizers + in-driver invariants + icontract contract on the code generator",
+ "C03": ("exploration", "emitted C built with ASan+UBSan+LSan in every string-storage mode, driven with poisoned state, exact-size chunks, relocated state, calls after terminal results, double free() and start/free cycles; string counter/terminator invariants checked after start() and every call; computed indices leaving the buffer on either side must read 0 (non-zero neighbours); constants with 1-3 byte characters accepted iff they fit, stored exactly, leak-checked; icontract post-condition on the real _generate_set_string", "3 C03", "compiler sanitizers + in-driver invariants + icontract contract on the code generator",
          "ASan is object-granular (intra-struct overflow covered by invariants/contract/dynamic modes); user-written arithmetic UB is skipped"),
- "C04": ("exploration", "SanitizerCoverage trace-pc-guard step meter in the driver: a call exceeding its edge bound is checked for an exact configuration repeat (guard, state bytes, input position) and escaped with longjmp; yield re-invocation repeats are detected too; workload = round-trip program shapes, long overflowing inputs, forced (state, byte, strings full/empty) grids and candidates from a non-consuming-move cycle finder over the compiled machine, end() from every state", "3 C04", "online runtime monitor (step meter + configuration-repeat detector) in instrumented emitted C",
+ "C04": ("exploration", "SanitizerCoverage trace-pc-guard step meter in the driver: a call exceeding its edge bound is checked for an exact configuration repeat (guard, state bytes, input position) and escaped with longjmp; yield re-invocation repeats are detected too; workload = round-trip program shapes (incl. handlers whose way back depends on the byte or on variables), long overflowing inputs, forced (state, byte, strings full/empty) grids and candidates from a non-consuming-move cycle finder over the compiled machine, end() from every state", "3 C04", "online runtime monitor (step meter + configuration-repeat detector) in instrumented emitted C",
          "spin verdict = exact configuration repeat (sound) or 50x the generous per-call edge bound; wall-clock only as watchdog"),
  "C05": ("exploration", "one sanitized binary holding the -O0 build and builds at -O1..-O3 / each optimisation flag and threshold flipped; per-byte event traces compared under the documented one-position slack; icontract post-condition on the real range-check generator", "3 C05", "differential runtime monitoring of emitted C, -O0 build as oracle, plus icontract contract on _generate_condition_for_transition",
          "final store of runs ending without a terminal result is not compared (pending lazy assignments); observed at later events of longer inputs"),
@@ -31,19 +31,19 @@ CHECKS = {
          "vf/am.py is the reading of what the compiled machine means; DONE postponed by one call after a break is tolerated (judged under C10)"),
  "C07": ("exploration", "emitted C of `/R/; end;` for enumerated small and random larger regexes (text and binary form): acceptance observed at every prefix through end() on a state copy, feed codes and FAIL pointer, and forced one-byte sweeps over all 256 byte values from several automaton states, compared with a Brzozowski-derivative engine", "3 C07", "reference-model monitor (regex derivatives) over recorded executions of sanitized emitted C",
          "vf/rx.py is the language definition (documented dialect)"),
- "C13": ("exploration", "generated programs and their macro-ized twins (slices extracted into nested macros with parameters of every kind) compiled by the real compiler and linked into one sanitized binary: verdicts equal, per-byte traces identical; mutated calls (extra/missing/wrong-kind/undefined arguments) must be diagnosed", "3 C13", "differential runtime monitoring of emitted C, inlined twin as oracle, plus exception monitor on argument errors",
+ "C13": ("exploration", "generated programs and their macro-ized twins (slices extracted into nested macros with parameters of every kind; re-entrant and name-capturing calls with hand-expanded twins) compiled by the real compiler and linked into one sanitized binary: verdicts equal, per-byte traces identical; mutated calls (extra/missing/wrong-kind/undefined arguments) must be diagnosed", "3 C13", "differential runtime monitoring of emitted C, inlined twin as oracle, plus exception monitor on argument errors",
          "macro-ization is the harness's own AST transformation"),
  "C14": ("exploration", "random well-typed expression trees (all operators and atoms, minimal parentheses) placed in assignment / bool assignment / character append / if contexts; variable values written into the state struct, one byte fed, stored results read back and compared with a big-integer evaluator with explicit C typing (UB classified and skipped)", "3 C14", "reference-model monitor (C arithmetic evaluator) over executions of sanitized emitted C",
          "LP64 gcc/clang typing; conversion to signed targets wraps"),
  "C15": ("exploration", "8-byte literals tiling all 256 byte values in every match spelling, swept with all 256 next bytes at every position and run on single-byte mutations; assigned / default strings, character constants and integer literals read back from the state struct; set-string contract on the real code generator", "3 C15", "reference-model monitor (literal decoder + derivatives) over executions of sanitized emitted C, icontract contract",
          "vf/lit.py + documented escape list define what a spelling denotes"),
- "C16": ("exploration", "wait programs (0-2 enclosing try blocks, literal / case-insensitive / regex / concatenated patterns incl. self-overlapping ones) compared as languages with an independently built restart automaton at every prefix (feed code, FAIL pointer, end() on a copy) and by 256-byte sweeps", "3 C16", "reference-model monitor (restart automaton) over recorded executions of sanitized emitted C",
+ "C16": ("exploration", "wait programs (0-2 enclosing try blocks, literal / case-insensitive / regex / multi-part patterns incl. self-overlapping ones, inverted sets and wildcards sharing bytes with what follows) compared as languages with an independently built restart automaton at every prefix (feed code, FAIL pointer, end() on a copy) and by 256-byte sweeps", "3 C16", "reference-model monitor (restart automaton) over recorded executions of sanitized emitted C",
          "restart rule as documented"),
  "C20": ("exploration", "each program compiled alone in a fresh process, in fresh processes under random PYTHONHASHSEED with an allocation preamble, and after 1-30 other compilations in one process; verdicts must agree and the emitted parsers, linked into one sanitized binary, must give identical per-byte traces", "3 C20", "differential runtime monitoring across perturbed compiler executions (hash seed, heap layout, process history)",
          "fresh-process hash-seed-0 compilation is the reference; textual differences are not flagged"),
  "C17": ("exploration", "EOF-enabled programs with `end` in match / concatenation / case / wait positions and inside try blocks; end() called after every explored input and every prefix of guided inputs; events and the result compared with the reference interpreter run on input + END", "3 C17", "reference-model monitor (procedural interpreter with an END symbol) over recorded executions of sanitized emitted C",
          "END is a symbol no data pattern matches; `end`/wait inside foreach bodies are outside the profile (undocumented)"),
- "C18": ("exploration", "the real compiler pipeline run in-process on generated sources with semantic chaos spliced in; exception-class monitor (anything but the diagnosed classes, or an unrenderable message, is internal) and a sys.monitoring PY_START step budget as logical clock", "3 C18", "exception and step monitors around real compilations",
+ "C18": ("exploration", "the real compiler pipeline run in-process on generated sources with semantic chaos spliced in; exception-class monitor (anything but the diagnosed classes, or an unrenderable message, is internal) and a sys.monitoring PY_START step budget as logical clock; the real command line on long / deep inputs and under several hash seeds", "3 C18", "exception and step monitors around real compilations",
          "diagnosed = NMFUError subclasses, LarkError, option RuntimeError; hang = step budget exceeded twice"),
  "C19": ("exploration", "icontract post-condition on the real ProgramData.load_commandline_flags (implications, exclusions, override rules read from flag metadata) over all 3^n assignments of the related flags x levels (thorough) plus cross-call monitors for level monotonicity, permutation independence and malformed options", "3 C19", "icontract runtime contract on the real function + cross-call monitors",
          "flag metadata (implies/exclusive_with) is the specification of the relations"),
